@@ -242,6 +242,49 @@ def m_split_at(E, path, a):
     return [sub_slice(s, 0, m), sub_slice(s, m, s.meta - m)]
 
 
+def m_split_last(E, path, a):
+    s = as_slice_ref(E, a[0])
+    if s.meta == 0: return opt_none(E)
+    return opt_some(E, [sub_slice(s, s.meta - 1, None), sub_slice(s, 0, s.meta - 1)])
+
+
+def m_split_first(E, path, a):
+    s = as_slice_ref(E, a[0])
+    if s.meta == 0: return opt_none(E)
+    return opt_some(E, [sub_slice(s, 0, None), sub_slice(s, 1, s.meta - 1)])
+
+
+def m_int_from(E, path, a):
+    m = re.search(r'<(\w+) as (?:From|Into)<(\w+)>>', path) or re.search(r'<(\w+) as (?:\w+::)*(?:From|Into)<(\w+)>>', path)
+    if not m: raise Unsupported('conversion ' + path)
+    dst, src = (m.group(1), m.group(2)) if 'From<' in path else (m.group(2), m.group(1))
+    if dst not in E.WIDTH: raise Unsupported('conversion ' + path)
+    return E.cast(a[0], dst, 'IntToInt')
+
+
+def m_starts_with(E, path, a):
+    s, t = as_slice_ref(E, a[0]), as_slice_ref(E, a[1])
+    if t.meta > s.meta: return BoolV(False)
+    acc = BoolV(True)
+    for x, y in zip(read_elems(E, s, t.meta), read_elems(E, t, t.meta)): acc = E.binop('BitAnd', acc, E.binop('Eq', x, y))
+    return acc
+
+
+def m_slice_eq(E, path, a):
+    s, t = as_slice_ref(E, deref(a[0]) if a[0].meta is None and deref(a[0]).__class__ is Ref else a[0]), as_slice_ref(E, deref(a[1]) if a[1].meta is None and deref(a[1]).__class__ is Ref else a[1])
+    if s.meta != t.meta: return BoolV(False)
+    acc = BoolV(True)
+    for x, y in zip(read_elems(E, s, s.meta), read_elems(E, t, t.meta)): acc = E.binop('BitAnd', acc, E.binop('Eq', x, y))
+    return acc
+
+
+def m_contains(E, path, a):
+    s = as_slice_ref(E, a[0]); x = deref(a[1])
+    acc = BoolV(False)
+    for y in read_elems(E, s, s.meta): acc = E.binop('BitOr', acc, E.binop('Eq', x, y))
+    return acc
+
+
 def m_first(E, path, a):
     s = a[0]
     return opt_some(E, sub_slice(s, 0, None)) if s.meta > 0 else opt_none(E)
@@ -803,6 +846,10 @@ MODELS = [
     (r'(^|::)slice::<impl \[.*\]>::get_unchecked(_mut)?$', m_get_unchecked),
     (r'as Index(Mut)?<.*>>::index(_mut)?$', m_index),
     (r'(^|::)slice::<impl \[.*\]>::split_at$', m_split_at),
+    (r'(^|::)slice::<impl \[.*\]>::split_last(_mut)?$', m_split_last), (r'(^|::)slice::<impl \[.*\]>::split_first(_mut)?$', m_split_first),
+    (r'(^|::)slice::<impl \[.*\]>::starts_with$', m_starts_with), (r'(^|::)slice::<impl \[.*\]>::contains$', m_contains),
+    (r'^<\[u8\] as PartialEq>::eq$|^<&\[u8\] as PartialEq.*>::eq$', m_slice_eq),
+    (r'^<(u|i)(8|16|32|64|128|size) as (\w+::)*(From|Into)<(u|i|b)\w+>>::(from|into)$', m_int_from),
     (r'(^|::)slice::<impl \[.*\]>::first$', m_first),
     (r'(^|::)slice::<impl \[.*\]>::last$', m_last),
     (r'as TryInto<.*>>::try_into$|as TryFrom<.*>>::try_from$', m_try_into),
